@@ -1088,6 +1088,10 @@ class Exec:
                     # a method the class leaves to its subclasses, given an assumed (abstract) contract by the unit
                     h = self.unit.abstract['call:' + attr]
                     return FuncV('pyfunc', lambda ex, st2, a, k, n, h=h, base=base: h(ex, st2, [base] + list(a), k, n))
+                if fn is None and source.class_stores_attr(cell.cls, attr):
+                    raise Unsupported('attribute %s of %s is state kept between calls that the contract does not describe '
+                                      '(line %d): its value at entry depends on the history of the object'
+                                      % (attr, cell.cls, getattr(node, 'lineno', 0)))
                 if fn is None:
                     raise EngineError('object of class %s has no attribute %s (line %d); declare it in the contract'
                                       % (cell.cls, attr, getattr(node, 'lineno', 0)))
@@ -2101,7 +2105,26 @@ class Exec:
                 if f.target in self.unit.inline or short in self.unit.inline:
                     mi2, fn2, _ = source.find_function(_resolve_alias(f.target))
                     return self._inline(fn2, {}, mi2, None, args, kwargs, st, node)
-                raise Unsupported('call to %s which has no contract' % f.target)
+                # no contract stated for this callee: its real body is executed in place (strongest postcondition through
+                # the callee), so that moving code into a helper neither hides it from the proof nor blocks the proof
+                stack = self.__dict__.setdefault('_auto_inl', [])
+                if f.target in stack or len(stack) >= 4:
+                    raise Unsupported('call to %s which has no contract' % f.target)
+                try:
+                    mi2, fn2, _ = source.find_function(_resolve_alias(f.target))
+                except (KeyError, FileNotFoundError, SyntaxError):
+                    raise Unsupported('call to %s which has no contract' % f.target)
+                if getattr(fn2, 'decorator_list', None) and any('cache' in ast.unparse(d) for d in fn2.decorator_list):
+                    raise Unsupported('call to %s which has no contract and keeps its results between calls (%s)'
+                                      % (f.target, ', '.join(ast.unparse(d) for d in fn2.decorator_list)))
+                note = 'callee without contract executed in place: %s' % f.target
+                if note not in self.notes:
+                    self.notes.append(note)
+                stack.append(f.target)
+                try:
+                    return self._inline(fn2, {}, mi2, None, args, kwargs, st, node)
+                finally:
+                    stack.pop()
             return self.call_contract(u, args, kwargs, st, node)
         if f.kind == 'method':
             ci, fn = f.target
@@ -2116,7 +2139,19 @@ class Exec:
             if qn in self.unit.inline or fn.name in self.unit.inline:
                 return self.inline_call(ci, fn, a, kwargs, st, node)       # the unit asks for the callee's real body
             if u is None:
-                raise Unsupported('call to %s which has no contract' % qn)
+                stack = self.__dict__.setdefault('_auto_inl', [])
+                if qn in stack or len(stack) >= 4:
+                    raise Unsupported('call to %s which has no contract' % qn)
+                if getattr(fn, 'decorator_list', None) and any('cache' in ast.unparse(d) for d in fn.decorator_list):
+                    raise Unsupported('call to %s which has no contract and keeps its results between calls' % qn)
+                note = 'callee without contract executed in place: %s' % qn
+                if note not in self.notes:
+                    self.notes.append(note)
+                stack.append(qn)
+                try:
+                    return self.inline_call(ci, fn, a, kwargs, st, node)
+                finally:
+                    stack.pop()
             return self.call_contract(u, a, kwargs, st, node)
         if f.kind == 'absmethod':
             o = f.self_val
@@ -2179,6 +2214,9 @@ class Exec:
 
     def _inline(self, fndef, closure_env, mi, clsname, args, kwargs, st, node):
         """execute a callee body in place; only single-outcome bodies (getters, tiny helpers)"""
+        import hashlib
+        self.__dict__.setdefault('deps', {})['%s:%s%s' % (getattr(mi, 'modname', '?'), (clsname + '.') if clsname else '', fndef.name)] = \
+            hashlib.sha256(ast.dump(fndef).encode()).hexdigest()[:16]
         env = dict(closure_env)
         env.update(self.bind(fndef, args, kwargs, st))
         saved = (st.env, self.mi, self.cur_class, self.fn_imports, self.loopno)
